@@ -27,10 +27,16 @@ def gen_trace(rng):
 def gen_curve_expr(rng, depth=1):
     r = rng.random()
     if r < 0.25 or depth == 0: return ["dmin", gen_dmin(rng, True, True)]
-    if r < 0.35: return ["fromiter", [rng.randint(0, 20) for _ in range(rng.randint(1, 6))]]
+    if r < 0.35:
+        v = [rng.randint(0, 20) for _ in range(rng.randint(1, 6))]
+        if max(v) == 0: v[-1] = rng.randint(1, 9)          # a curve whose distances are all 0 is unusable (division by zero)
+        return ["fromiter", v]
     if r < 0.5:
-        tr = gen_trace(rng)
-        return ["from_trace", tr, rng.randint(2, 6)]
+        for _ in range(30):                                # the recorded events must not all be simultaneous (C12: from_trace zero-last class)
+            tr = gen_trace(rng); K = rng.randint(2, 6)
+            d = dmin_of_trace(tr, K)
+            if d and d[-1] > 0: return ["from_trace", tr, K]
+        return ["dmin", gen_dmin(rng, True, True)]
     if r < 0.62: return ["from_ab", gen_ab(rng, 1, AB_ANALYSIS, True, True), rng.randint(1, 12)]
     if r < 0.72: return ["from_ab_until", gen_ab(rng, 1, AB_ANALYSIS, True, True), rng.randint(0, 80)]
     if r < 0.76: return ["of_periodic", rng.randint(1, 30)]
